@@ -214,14 +214,29 @@ def check_stale_comparator(ctx, rule: str):
     db, rep = ctx.db, ctx.rep
     stale = db.func("runners._shared.helpers._is_stale")
     cur = cons = None
+    # operands found by what they denote (through single-assignment locals): 'current' asks the state for a version,
+    # 'consumed' reads the versions the last execution recorded
+    sdefs = {nm: ds[0].value for nm, ds in db.local_defs(stale).items() if len(ds) == 1 and isinstance(ds[0], (ast.Assign, ast.AnnAssign)) and getattr(ds[0], "value", None) is not None}
+
+    def expand(e: ast.AST, depth: int = 0) -> str:
+        t_ = src(e)
+        if depth < 3:
+            for x in ast.walk(e):
+                if isinstance(x, ast.Name) and x.id in sdefs:
+                    t_ += " " + expand(sdefs[x.id], depth + 1)
+        return t_
+
+    tests = []
+    cur_e = cons_e = None
     for n in walk_local(stale.node):
-        if isinstance(n, ast.Assign) and isinstance(n.targets[0], ast.Name):
-            t = src(n.value)
-            if "get_version" in t:
-                cur = n.targets[0].id
-            if "input_versions" in t:
-                cons = n.targets[0].id
-    tests = [n for n in walk_local(stale.node) if isinstance(n, ast.If) and cur and cons and cur in src(n.test) and cons in src(n.test)]
+        if isinstance(n, ast.If):
+            for cmp_ in [x for x in ast.walk(n.test) if isinstance(x, ast.Compare) and len(x.ops) == 1]:
+                ops_ = [cmp_.left, cmp_.comparators[0]]
+                kinds = ["cons" if "input_versions" in expand(o) else "cur" if "get_version" in expand(o) or ".versions" in expand(o) else None for o in ops_]
+                if set(kinds) == {"cur", "cons"}:
+                    cur_e, cons_e = ops_[kinds.index("cur")], ops_[kinds.index("cons")]
+                    cur, cons = src(cur_e), src(cons_e)
+                    tests.append(n)
     if not (cur and cons and tests):
         rep.bad(rule, f"{stale.qname}:comparator", stale.loc(), "comparison of current and consumed input versions not found")
     else:
@@ -240,12 +255,18 @@ def check_stale_comparator(ctx, rule: str):
     why = "current/consumed versions not recognised"
     if cur and cons:
         kcur = kcons = None
-        for n in walk_local(stale.node):
-            if isinstance(n, ast.Assign) and isinstance(n.targets[0], ast.Name) and isinstance(n.value, ast.Call) and n.value.args:
-                if n.targets[0].id == cur and isinstance(n.value.func, ast.Attribute) and n.value.func.attr == "get_version":
-                    kcur = n.value.args[0]
-                if n.targets[0].id == cons and isinstance(n.value.func, ast.Attribute) and n.value.func.attr == "get" and "input_versions" in src(n.value.func.value):
-                    kcons = n.value.args[0]
+
+        def through(e):
+            d = 0
+            while isinstance(e, ast.Name) and e.id in sdefs and d < 3:
+                e, d = sdefs[e.id], d + 1
+            return e
+
+        ce, se = through(cur_e), through(cons_e)
+        if isinstance(ce, ast.Call) and isinstance(ce.func, ast.Attribute) and ce.func.attr == "get_version" and ce.args:
+            kcur = ce.args[0]
+        if isinstance(se, ast.Call) and isinstance(se.func, ast.Attribute) and se.func.attr == "get" and "input_versions" in expand(se.func.value) and se.args:
+            kcons = se.args[0]
         loopvars = {x.id for lp in walk_local(stale.node) if isinstance(lp, ast.For) and src(lp.iter).endswith(".inputs") for x in ast.walk(lp.target) if isinstance(x, ast.Name)}
         same = kcur is not None and kcons is not None and src(kcur) == src(kcons) and isinstance(kcur, ast.Name) and kcur.id in loopvars
         why = "each input's current version is compared with that same input's consumed version" if same else "the consumed version compared against is not the one recorded for the same parameter (e.g. a maximum over all inputs): versions are independent counters per name, so a first upstream production (version 1) no longer makes a node stale once any other input was consumed at version >= 1"
@@ -258,6 +279,12 @@ def _r5(ctx) -> None:
     from .c03 import check_node_options_used
 
     check_block_before_deferral(ctx, "C04.R5")
+    # an iteration is one gate decision: the body nodes that decision activates in one step all read the values (and
+    # record the versions) of the step's start snapshot, not each other's fresh outputs — else a later node in ready
+    # order runs on next-turn values, records them as consumed and is never re-run (a, b = b, a % b needs both reads old)
+    from .c02 import check_versions_from_snapshot
+
+    check_versions_from_snapshot(ctx, "C04.R3")
 
     # ---- R7 ---------------------------------------------------------------------
     from .c17 import check_wait_freshness
